@@ -79,7 +79,8 @@ impl Prop for C20 {
       let id = format!("files={};edges={:0width$b};variant={};n={}", nfiles, mask, variant, idx, width = nfiles * nfiles);
       let mut rng = Rng::keyed(seed, &id);
       let mut tree: BTreeMap<String, String> = BTreeMap::new();
-      let crlf = variant == "crlf";
+      // CRLF line ends: the dedicated variant, and one in three of the fence variants (fence recognition must ignore the CR)
+      let crlf = variant == "crlf" || (matches!(variant, "fences" | "fence-last" | "decorated") && idx % 3 == 1);
       let nl = if crlf { "\r\n" } else { "\n" };
       for i in 0..nfiles {
         let mut lines: Vec<String> = vec![format!("F{} first line", i)];
